@@ -229,6 +229,31 @@ pub fn run(args: &[String]) -> i32 {
         }
     }
 
+    // 6. back-pressure: more results than the channel holds (capacity 100) while the collector is held back.
+    //    The first message is received but its label `recv:1` is scheduled after the 102nd send has been released,
+    //    so 100 results are queued and one is in the collector's hands when the next walker wants to send.
+    {
+        // exactly 102 files: every send is scheduled (an unscheduled walker would take a slot of the channel at an arbitrary time)
+        let n = 102usize;
+        let stems: Vec<String> = (1..=n).map(|i| format!("g{i:03}")).collect();
+        let stem_refs: Vec<&str> = stems.iter().map(|s| s.as_str()).collect();
+        for &lang in &[Lang::TypeScript, Lang::Kotlin] {
+            let files: Vec<(String, String)> = stems.iter().map(|s| (s.clone(), format!("#[typeshare]\npub struct S{s} {{ pub a: u32 }}\n"))).collect();
+            // reference: free running
+            jobs.push(Job { class: format!("backpressure|{}", lang.name()), files: files.clone(), schedule: vec![], expect_events: None, lang, multi: false, threads: n, family: "channel-capacity" });
+            for held in [101usize] {
+                let mut schedule = e3::start_barrier(&stem_refs);
+                for s in &stems[..held] {
+                    schedule.push(format!("send:{s}"));
+                }
+                // the (held+1)-th walker is released towards a full channel before the collector may go on
+                schedule.push(format!("send-unconfirmed:{}", stems[held]));
+                schedule.push("recv:1".into());
+                jobs.push(Job { class: format!("backpressure|{}", lang.name()), files: files.clone(), schedule, expect_events: None, lang, multi: false, threads: n, family: "channel-capacity" });
+            }
+        }
+    }
+
     let results: Vec<Replay> = par_map(&jobs, report::threads(), |j| e3::replay(&j.files, &j.schedule, j.lang, j.multi, j.threads, &[]));
     let mut classes: BTreeMap<String, BTreeMap<String, usize>> = BTreeMap::new(); // class -> outputs key -> first job index
     let mut fam_counts: BTreeMap<&str, u64> = BTreeMap::new();
@@ -238,7 +263,7 @@ pub fn run(args: &[String]) -> i32 {
         if r.class != "ok" {
             // not a determinism verdict: the run itself failed
             if r.class == "schedule-infeasible" {
-                rep.machinery(format!("schedule infeasible on the real binary ({}): {}", j.family, r.schedule));
+                rep.machinery(format!("schedule infeasible on the real binary ({}): {}", j.family, r.schedule.chars().take(300).collect::<String>()));
             } else {
                 rep.vios.add(Violation {
                     sig: format!("C06|run-failed:{}|family={}|{}", r.class, j.family, j.lang.name()),
